@@ -12,6 +12,7 @@ package c19
 
 import (
 	"fmt"
+	"os"
 	"sort"
 	"strings"
 	"time"
@@ -502,6 +503,9 @@ func (s *scen) apply(o opdef) bfs.Step {
 		}
 		after, _ := w.Keepers.Epochstorage.GetStakeEntryCurrent(w.Ctx, specID, s.paddr[o.target])
 		if before.IsFrozen() && !after.IsFrozen() {
+			// README: a hard-jailed provider resumes with an unfreeze after its jail time (24h) ended; its jail
+			// record starts afresh (every recorded jail is then older than a day anyway)
+			delete(s.l.jails, o.target)
 			return bfs.Step{Accepted: true, Obs: "unfrozen"}
 		}
 		return bfs.Step{Accepted: true, Obs: "unfreeze-noop"}
@@ -634,13 +638,16 @@ func init() {
 			depth    int
 			deadline time.Duration
 		}
-		plans := []plan{{"c19/frozen4th", 4, 30 * time.Second}, {"c19/late4th", 4, 25 * time.Second}, {"c19/twojails", 4, 25 * time.Second}, {"c19/rec3", 5, 25 * time.Second}}
+		plans := []plan{{"c19/frozen4th", 4, 120 * time.Second}, {"c19/late4th", 4, 120 * time.Second}, {"c19/twojails", 4, 120 * time.Second}, {"c19/rec3", 5, 120 * time.Second}}
 		if ev.Tier() == "thorough" {
-			plans = []plan{{"c19/frozen4th", 5, 5 * time.Minute}, {"c19/late4th", 5, 4 * time.Minute}, {"c19/twojails", 5, 3 * time.Minute}, {"c19/rec3", 7, 3 * time.Minute}}
+			plans = []plan{{"c19/frozen4th", 6, 5 * time.Minute}, {"c19/late4th", 5, 3 * time.Minute}, {"c19/twojails", 6, 3 * time.Minute}, {"c19/rec3", 7, 3 * time.Minute}}
 		}
 		exhaustive := true
 		var bounds []string
 		for _, p := range plans {
+			if only := os.Getenv("VERIF_C19_SCEN"); only != "" && !strings.Contains(p.name, only) { // development aid
+				continue
+			}
 			cfg := bfs.Config{Scenario: p.name, MaxDepth: p.depth, Deadline: p.deadline}
 			st := bfs.Explore(cfg, run)
 			bfs.Report(run, strings.TrimPrefix(p.name, "c19/"), cfg, st)
